@@ -233,6 +233,12 @@ pub struct Variant {
     /// unknown properties inserted into blocks
     pub unknown_props: bool,
     pub nth_style: u8,
+    /// placement of the document's `<style>` element (gen::Doc::style_place)
+    #[serde(default)]
+    pub place: u8,
+    /// the author sheet is split over two `<style>` elements (second half at the end of the body)
+    #[serde(default)]
+    pub split: bool,
 }
 
 pub const JUNK: &[&str] = &[
@@ -601,7 +607,7 @@ pub fn complex(ids: usize) -> BoxedStrategy<Complex> {
 }
 
 pub fn variant() -> BoxedStrategy<Variant> {
-    (0u8..4, any::<bool>(), 0u8..3, prop_oneof![2 => Just(vec![]), 1 => prop::collection::vec(any::<u8>(), 1..4)], any::<bool>(), any::<u8>())
-        .prop_map(|(layout, upper, final_semi, junk, unknown_props, nth_style)| Variant { layout, upper, final_semi, junk, unknown_props, nth_style })
+    (0u8..4, any::<bool>(), 0u8..3, prop_oneof![2 => Just(vec![]), 1 => prop::collection::vec(any::<u8>(), 1..4)], any::<bool>(), any::<u8>(), prop_oneof![3 => Just(0u8), 1 => Just(1u8), 1 => Just(2u8), 1 => Just(3u8), 1 => Just(4u8)], prop::bool::weighted(0.2))
+        .prop_map(|(layout, upper, final_semi, junk, unknown_props, nth_style, place, split)| Variant { layout, upper, final_semi, junk, unknown_props, nth_style, place, split })
         .boxed()
 }
